@@ -669,6 +669,7 @@ func main() {
 		Property: "C03", Level: "model_checking",
 		Rule: "one scenario = epoll mode x origin (AddConn, accepted, either of them still being registered when the causes are raised, UDP session, UDP socket that reads for itself, async dial with outcome connected/refused/never/immediate and optional timeout) x 1-3 close causes raised concurrently (Close x2, CloseWithError x2, peer FIN, peer FIN behind input that is being handled, also with asynchronous reading on three executors, peer RST + write, overflow, read/write deadline on virtual time, Engine.Stop); every interleaving within the preemption bound; non-trivial = the connection was closed / the dial callback ran",
 		Assumptions: []string{
+			"once the connection is closed, Write is tried with a one-byte, a three-byte, a nil and an empty argument and Writev with nil, no buffer, one / two empty buffers, a nil buffer and one / two non-empty buffers: each must report the closed connection (an empty argument is not a reason to skip the closed indication), Sendfile and Execute likewise, and none may issue a system call on the descriptor",
 			"'the reported error is the first cause' is required when a closing call returned before any other cause was raised; otherwise the error must be one of the raised causes",
 			"fatal I/O errors come from a peer reset (read: ECONNRESET, write: EPIPE); a reset seen through epoll is reported as EOF by nbio and accepted as such",
 			"a dial without timeout whose connect never completes owes no callback until something ends it; with a timeout exactly one callback (with an error) is owed after the timeout fired",
